@@ -6,7 +6,7 @@
 //! Dictionary (several key widths, unused values, NULL values), List / LargeList /
 //! ListView / FixedSizeList / nested lists, Struct, Map, sparse and dense Union,
 //! Decimal128/256, RunEndEncoded, Null, and a multi-column batch) x every
-//! sequence of 1..=3 batches, each batch {full, sliced at offset 1, empty} and
+//! sequence of 1..=3 batches, each batch {full, sliced at offset 1, empty as a zero-row slice, empty as new_empty} and
 //! carrying different values (and different dictionaries) x codec {none, lz4,
 //! zstd} x write API {spill_record_batch_and_finish, create_in_progress_file +
 //! append_batch (+ flush) + finish} x read path {read_spill_as_stream,
@@ -326,14 +326,16 @@ fn schema_of(kind: &str) -> SchemaRef {
     Arc::new(Schema::new(fields))
 }
 
-/// shape: 0 = full, 1 = sliced at offset 1 (ROWS - 2 rows), 2 = empty (0 rows)
+/// shape: 0 = full, 1 = sliced at offset 1 (ROWS - 2 rows), 2 = empty as a zero-row slice at offset 2,
+/// 3 = empty as `RecordBatch::new_empty`
 fn batch_of(kind: &str, seed: usize, shape: u8) -> RecordBatch {
     let cols: Vec<ArrayRef> = columns_of(kind).iter().enumerate().map(|(i, k)| column(k, seed * 5 + i)).collect();
     let b = RecordBatch::try_new(schema_of(kind), cols).expect("harness: batch construction");
     match shape {
         0 => b,
         1 => b.slice(1, ROWS - 2),
-        _ => b.slice(2, 0),
+        2 => b.slice(2, 0),
+        _ => RecordBatch::new_empty(schema_of(kind)),
     }
 }
 
@@ -571,7 +573,7 @@ async fn run_case_async(c: &Case) -> Result<Outcome, String> {
 }
 
 fn shape_sequences(max_len: usize) -> Vec<Vec<u8>> {
-    mc_core::enumerate::sequences(&[0u8, 1, 2], 1, max_len)
+    mc_core::enumerate::sequences(&[0u8, 1, 2, 3], 1, max_len)
 }
 
 fn explore(ctx: &Ctx) {
@@ -596,7 +598,7 @@ fn explore(ctx: &Ctx) {
     let n_rt = cases.len();
     ctx.set_extra(
         "bounds",
-        json!({"column_kinds": KINDS, "multi_column_batch": MULTI, "rows_per_full_batch": ROWS, "batch_shapes": ["full", "sliced(1, ROWS-2)", "empty"],
+        json!({"column_kinds": KINDS, "multi_column_batch": MULTI, "rows_per_full_batch": ROWS, "batch_shapes": ["full", "sliced(1, ROWS-2)", "empty: slice(2, 0)", "empty: RecordBatch::new_empty"],
                "max_batches_per_file": max_len, "codecs": ["uncompressed", "lz4_frame", "zstd"], "write_apis": ["spill_record_batch_and_finish", "in-progress append/flush/finish"],
                "read_paths": ["buffered", "unbuffered", "buffered+hint", "unbuffered+hint"], "round_trip_cases": n_rt,
                "fault_part": "per column kind the sequence [full, sliced], uncompressed, every limit 0..file size"}),
@@ -605,15 +607,22 @@ fn explore(ctx: &Ctx) {
     ctx.assume("limit rejections stand in for write failures in this part; OS-level write failures are injected in part acct (chk-exec/c21) one layer below");
     let unsupported = std::sync::Mutex::new(std::collections::BTreeSet::<String>::new());
     let file_sizes = std::sync::Mutex::new(std::collections::BTreeMap::<String, u64>::new());
-    cases.par_iter().for_each(|c| {
-        if ctx.should_stop() {
-            return;
-        }
-        ctx.eval();
-        match mc_core::catch(|| run_case(c)).unwrap_or_else(|e| Err(format!("panic: {e}"))) {
+    let results: Vec<Option<Result<Outcome, String>>> = cases
+        .par_iter()
+        .map(|c| {
+            if ctx.should_stop() {
+                return None;
+            }
+            ctx.eval();
+            Some(mc_core::catch(|| run_case(c)).unwrap_or_else(|e| Err(format!("panic: {e}"))))
+        })
+        .collect();
+    for (c, r) in cases.iter().zip(results) {
+        let Some(r) = r else { continue };
+        match r {
             Ok(Outcome::Ok { file_len }) => {
                 // non-trivial: at least one non-empty batch and more than one batch, or a sliced batch
-                if c.shapes.iter().any(|s| *s != 2) && (c.shapes.len() > 1 || c.shapes[0] == 1) {
+                if c.shapes.iter().any(|s| *s < 2) && (c.shapes.len() > 1 || c.shapes[0] == 1) {
                     ctx.nontrivial(c);
                 }
                 if c.shapes == [0, 1] && c.codec == 0 && c.incremental && c.read_path == 0 {
@@ -629,9 +638,22 @@ fn explore(ctx: &Ctx) {
             }
             Ok(_) => {}
             Err(what) if what.starts_with("HARNESS") => ctx.machinery_error(format!("{what} in {}", serde_json::to_string(c).unwrap())),
-            Err(what) => ctx.violation(serde_json::to_string(c).unwrap(), what, serde_json::to_value(c).unwrap()),
+            Err(what) => {
+                // One report per column kind for the one recognised failure class (first = simplest case wins;
+                // cases are enumerated simplest first and handled here in enumeration order); every other
+                // failure is keyed by its exact case.
+                let key = if c.kind.starts_with("RunEndEncoded")
+                    && c.shapes.contains(&2)
+                    && what.contains("run_ends array should be strictly positive")
+                {
+                    format!("{}: a zero-row slice of a RunEndEncoded batch is spilled without error but the spill file cannot be read back", c.kind)
+                } else {
+                    serde_json::to_string(c).unwrap()
+                };
+                ctx.violation(key, what, serde_json::to_value(c).unwrap())
+            }
         }
-    });
+    }
     ctx.count("round_trips", n_rt as u64);
     let unsupported = unsupported.into_inner().unwrap();
     ctx.set_extra("types_rejected_by_the_ipc_writer", json!(unsupported));
